@@ -155,6 +155,11 @@ impl DiskRowset {
                 let mut pre_block_first_key = 0;
                 for index in column_index.indexes() {
                     let mut first_key: &[u8] = &index.first_key;
+                    if first_key.len() < std::mem::size_of::<i32>() {
+                        // first keys were not recorded (`record_first_key = false`): the index
+                        // says nothing about where `begin_val` starts, scan from what is known
+                        break;
+                    }
                     let first_val: i32 = PrimitiveFixedWidthEncode::decode(&mut first_key);
 
                     // a block whose first key equals `begin_val` may be preceded by rows with the
